@@ -1735,3 +1735,88 @@ func runR104(c *Ctx) {
 		}
 	}
 }
+
+// ---- R106: the negation shortcut falls back exactly when the built-in inverse failed ----
+
+func init() {
+	register(&Rule{ID: "R106", Name: "INVERSE-FALLBACK", Floor: 2,
+		Text: "in QFrame.filter, after the column kernel was asked for the built-in inverse of a comparator (the comparator looked up in an inverse table), the generic complement (a second Column.Filter call into a fresh boolean index that is then negated into the result) runs whenever that first call returned an error: evaluated (E5) from the first call in the two worlds error / no error. An inverse that is not implemented for the argument type (`not in`) must not surface as an error of the filter (running the complement after a successful inverse as well only repeats the same bits)",
+		Run:  runR106})
+}
+
+func runR106(c *Ctx) {
+	p := c.P
+	fn := p.anchorFrameFilter()
+	if fn == nil {
+		c.undecided("QFrame.filter", "-", "not found")
+		return
+	}
+	fnm := fname(fn)
+	var first, second *ssa.Call
+	eachInstr(fn, func(in ssa.Instruction) {
+		call, ok := in.(*ssa.Call)
+		if !ok || !call.Call.IsInvoke() || call.Call.Method.Name() != "Filter" || len(call.Call.Args) < 4 {
+			return
+		}
+		// comparator from an inverse table lookup?
+		cmp := call.Call.Args[1]
+		if mi, ok := cmp.(*ssa.MakeInterface); ok {
+			cmp = mi.X
+		}
+		if ex, ok := cmp.(*ssa.Extract); ok {
+			if _, isLk := ex.Tuple.(*ssa.Lookup); isLk {
+				first = call
+				return
+			}
+		}
+		// fallback: boolean index argument is a fresh NewBool
+		if bc, ok := call.Call.Args[3].(*ssa.Call); ok {
+			if callee := bc.Call.StaticCallee(); callee != nil && callee.Name() == "NewBool" {
+				second = call
+			}
+		}
+	})
+	if first == nil || second == nil {
+		c.undecided(fnm+"|inverse shortcut", p.pos(fn.Pos()), "the built-in inverse call / the generic complement call was not found")
+		return
+	}
+	for _, failed := range []bool{false, true} {
+		key := fmt.Sprintf("%s|built-in inverse failed=%v", fnm, failed)
+		pe := &pathExec{fn: fn, start: first.Block()}
+		pe.oracle = func(pe *pathExec, cond ssa.Value) (bool, bool) {
+			return pe.evalBool(cond, func(x ssa.Value) (bool, bool) {
+				b, ok := x.(*ssa.BinOp)
+				if !ok {
+					return false, false
+				}
+				if pe.resolve(b.X) == ssa.Value(first) {
+					if cst, ok := b.Y.(*ssa.Const); ok && cst.IsNil() {
+						return (b.Op == token.NEQ) == failed, true
+					}
+				}
+				return false, false
+			})
+		}
+		pe.stopAt = func(b *ssa.BasicBlock) bool { return b == second.Block() }
+		pe.run()
+		ran := pe.stopped == second.Block()
+		if !ran {
+			for _, cl := range pe.calls {
+				if cl == second {
+					ran = true
+				}
+			}
+		}
+		switch {
+		case ran == failed:
+			c.ok(key, p.instrPos(first), fmt.Sprintf("generic complement runs: %v", ran))
+		case !failed:
+			// computing the complement on top of a successful inverse sets the same bits again: slower, not wrong
+			c.ok(key, p.instrPos(first), "generic complement also runs after a successful inverse (same bits, OR-accumulated)")
+		case failed:
+			c.bad(key, p.instrPos(first), "the built-in inverse returned an error but the generic complement is not computed: the filter fails (or selects nothing) although its complement is well defined")
+		default:
+			c.bad(key, p.instrPos(first), "the built-in inverse succeeded and the generic complement is computed on top of it")
+		}
+	}
+}
